@@ -388,3 +388,64 @@ def selftest():
 
     src = open("/repo/tests/test_c2profile.py").read()
     assert "http-get" in src
+
+
+def parse_tokens(toks):
+    """Tokens -> sentence, by recursive descent over the frozen production table (used by replays)."""
+    pos = 0
+
+    def find(kind, kws, nlits, block):
+        forms = {"steps": TRANSFORM_STEPS, "termination": TERMINATIONS}.get(kind) or PRODUCTIONS[kind]
+        for f in forms:
+            if block and f[0] in ("b", "dt") and f[2] == kws[0]:
+                return f
+            if not block and f[0] == "s" and f[2] == tuple(kws) and f[3] == nlits:
+                return f
+        return None
+
+    def stmt(kind):
+        nonlocal pos
+        kws, lits = [], []
+        while not (toks[pos].startswith('"') or toks[pos] in (";", "{")):
+            kws.append(toks[pos])
+            pos += 1
+        while toks[pos].startswith('"'):
+            lits.append(toks[pos])
+            pos += 1
+        if toks[pos] == ";":
+            pos += 1
+            if kind == "dtbody":
+                f = find("steps", kws, len(lits), False) or find("termination", kws, len(lits), False)
+            else:
+                f = find(kind, kws, len(lits), False)
+            if f is None:
+                raise ValueError(f"no production for {kws} with {len(lits)} literals in {kind}")
+            return ("s", f[1], f[2], tuple(lits))
+        pos += 1  # "{"
+        f = find(kind, kws, 0, True)
+        if f is None:
+            raise ValueError(f"no block production {kws} in {kind}")
+        if f[0] == "b":
+            body = []
+            while toks[pos] != "}":
+                body.append(stmt(f[4]))
+            pos += 1
+            return ("b", f[1], f[2], lits[0] if lits else None, f[4], body)
+        groups, steps = [], []
+        term_kws = {t[2] for t in TERMINATIONS}
+        while toks[pos] != "}":
+            s = stmt("dtbody")
+            if s[2] in term_kws and len(s[3]) == {t[2]: t[3] for t in TERMINATIONS}[s[2]] and not (s[2] in {x[2] for x in TRANSFORM_STEPS}):
+                groups.append((steps, s))
+                steps = []
+            else:
+                steps.append(s)
+        pos += 1
+        if steps:
+            raise ValueError("data transform without termination")
+        return ("dt", f[1], f[2], groups)
+
+    out = []
+    while pos < len(toks):
+        out.append(stmt("start"))
+    return out
